@@ -4734,6 +4734,13 @@ XPath::NodeTester::NodeTester(
                 {
                     m_testFunction = &NodeTester::testNamespaceTotallyWild;
                 }
+                else if (m_targetNamespace != 0)
+                {
+                    // The expanded-name of a namespace node has a null
+                    // namespace URI, so a test with a prefix (p:q or p:*)
+                    // cannot match any.
+                    m_testFunction = &NodeTester::testDefault;
+                }
                 else
                 {
                     m_testFunction = &NodeTester::testNamespaceNCName;
